@@ -164,6 +164,13 @@ def gen_world(r, anp=False, big=False, pods=True, multi_kind=True):
     if r.random() < 0.25 and W['workloads']:
         cover_bias(r, W)
 
+    # many-ranges bias: one protocol with four separate ranges towards everybody (printed as a list of more than two items)
+    if W['workloads'] and r.random() < 0.2:
+        w = r.choice(W['workloads'])
+        pr_ = r.choice(PROTOS)
+        W['netpols'].append({'ns': w['ns'], 'name': 'npranges', 'podSelector': {}, 'policyTypes': ['Ingress'],
+                             'ingress': [{'ports': [{'protocol': pr_, 'port': 79}, {'protocol': pr_, 'port': 81}, {'protocol': pr_, 'port': 443},
+                                                    {'protocol': pr_, 'port': 8080, 'endPort': 8081}]}]})
     # named-port bias: a policy whose only ports are names the selected workload declares (resolved on the destination for ingress)
     named = [w for w in W['workloads'] if any(cp['name'] for cp in w['ports'])]
     if named and r.random() < 0.25:
@@ -252,10 +259,21 @@ def gen_world(r, anp=False, big=False, pods=True, multi_kind=True):
             for dd in dirs:
                 hi[dd] = [stack_rule(dd, acts[0], 'h')]
                 lo[dd] = [stack_rule(dd, acts[1], 'l')]
+            shadow = acts[0] != 'Pass' and r.random() < 0.5
+            if shadow:
+                # the lower policy is completely shadowed: it speaks of one port strictly inside the range the higher one decides
+                prs = r.choice(PROTOS)
+                for dd in dirs:
+                    hi[dd][0]['ports'] = [{'portRange': {'protocol': prs, 'start': 80, 'end': 90}}]
+                    lo[dd][0]['ports'] = [{'portNumber': {'protocol': prs, 'port': 85}}]
             pair = [lo, hi]          # given out of priority order
             for a in pair:
                 W['anps'].insert(r.randrange(len(W['anps']) + 1), a)
-            if r.random() < 0.5 and W['workloads']:
+            if shadow and W['workloads']:
+                # ... and everything the admin policies leave open is denied by a NetworkPolicy in every namespace
+                for nsx in sorted({w['ns'] for w in W['workloads']}):
+                    W['netpols'].append({'ns': nsx, 'name': 'npdeny', 'podSelector': {}, 'policyTypes': ['Ingress', 'Egress']})
+            elif r.random() < 0.5 and W['workloads']:
                 npx = {'ns': r.choice(W['workloads'])['ns'], 'name': 'npstack', 'podSelector': {}, 'policyTypes': ['Ingress', 'Egress']}
                 nports = [{'protocol': q['portNumber']['protocol'], 'port': q['portNumber']['port']} for q in (x or []) if 'portNumber' in q]
                 for dd in ('ingress', 'egress'):
